@@ -489,15 +489,17 @@ func runC05(w *World, r *Report) {
 	if len(preds) == 0 {
 		r.bad("canonicality-predicate", "spice", "-", "no function in package spice decides canonicality", "none found")
 	}
-	canon := func(fn *ssa.Function, recv string) []Edge {
-		var es []Edge
-		for _, c := range callsTo(fn, preds...) {
-			rv, _ := callArgs(c)
-			if rv != nil && pathOf(rv) == recv {
-				es = append(es, passBool(c, 0, true)...)
+	canon := func(recv string) gspec {
+		return func(fn *ssa.Function, res resolver) []Edge {
+			var es []Edge
+			for _, c := range callsTo(fn, preds...) {
+				rv, _ := callArgs(c)
+				if rv != nil && res(rv) == recv {
+					es = append(es, passBool(c, 0, true)...)
+				}
 			}
+			return es
 		}
-		return es
 	}
 	r.rule("canonical-at-entry", "every admission entry inserts (or hands to the admission path) only behind the pass edge of the canonicality predicate on the admitted amount", 4)
 	for _, row := range []struct{ fn, effect, amount string }{
@@ -510,23 +512,28 @@ func runC05(w *World, r *Report) {
 		if f == nil {
 			continue
 		}
-		for _, eff := range f.calls(row.effect) {
+		effs := deepCalls(f.fn, byName(row.effect), deepDepth)
+		if len(effs) == 0 {
+			r.bad("canonical-at-entry", row.fn+"/effect", w.Pos(f.fn.Pos()), "the admission entry inserts (or hands on) a vertex", "no call of "+row.effect)
+		}
+		for _, ed := range effs {
+			eff := ed.c
 			amount := row.amount
 			if strings.HasPrefix(amount, "$2") {
 				amount = f.fn.Params[2].Name() + strings.TrimPrefix(amount, "$2")
 			}
 			if strings.HasPrefix(amount, "@vertex") {
 				_, a := callArgs(eff)
-				amount = pathOf(a[1]) + strings.TrimPrefix(amount, "@vertex")
+				amount = ed.path(a[1]) + strings.TrimPrefix(amount, "@vertex")
 			}
-			ok := behind(eff, canon(f.fn, amount))
+			ok := behindDeepSite(ed, canon(amount))
 			extra := ""
 			if row.fn == "CreateGenesis" {
 				// the checked amount is the one that goes into the genesis transaction
 				bound := false
-				for _, c := range f.calls(cn("transaction", "", "New")) {
-					_, a := callArgs(c)
-					if pathOf(a[1]) == amount {
+				for _, d := range deepCalls(f.fn, byName(cn("transaction", "", "New")), 1) {
+					_, a := callArgs(d.c)
+					if d.path(a[1]) == amount {
 						bound = true
 					}
 				}
@@ -607,7 +614,7 @@ func runC06(w *World, r *Report) {
 		r.check(len(found) == 0, "queries-read-only", name, w.Pos(f.fn.Pos()), fmt.Sprintf("read-only over %d reachable repo functions", len(reach)), strings.Join(found, "; "))
 	}
 
-	r.rule("balance-shape", "CalculateBalance: pourFunds(address, tip|ancestor, &in, &out) with constant roles; checkpoint.Supply(in) and .Drain(out) both gate the result; the balance is reported for the queried address", 5)
+	r.rule("balance-shape", "CalculateBalance: pourFunds(address, tip|ancestor, &in, &out) with constant roles; checkpoint.Supply(in) and .Drain(out) both gate the result; the balance is reported for the queried address", 3)
 	if f := w.fx(r, "accountant", "AccountingBook", "CalculateBalance"); f != nil {
 		fn := f.fn
 		addr := fn.Params[2].Name()
